@@ -210,7 +210,7 @@ class C08Machine(RecordingMixin, RuleBasedStateMachine):
         self.states.append(state) if len(self.states) < 4 else None
         hp = sum(c.heralds["input"].values())
         nloss = c.U_full.shape[0] - c.n_modes
-        if hp + sum(occ) > 4 or c.n_modes + nloss > 12 or nv == 0:
+        if hp + sum(occ) > 4 or c.n_modes + nloss > 12:
             return
         self.arg_uses[k] = self.arg_uses.get(k, 0) + 1
 
